@@ -21,6 +21,8 @@ REGEXES = [
     ('[xy]', False, ['x', 'y']),
     ('a|ab', False, ['a']),
     ('[a-c]+!', False, ['a!', 'cb!']),
+    ('[a-z]+', False, ['a', 'b', 'foo', 'let', 'ab']),
+    ('"[^"]*"', False, ['"a"', '""', '"b c"']),
 ]
 RE_TABLE = {p: (n, s) for p, n, s in REGEXES}
 # extra patterns only used as ignorables (never sampled as content)
@@ -414,6 +416,9 @@ class Gen:
             # template evaluates its argument first: the argument is then in leftmost position
             if self.table[tn].get('arg_leftmost'):
                 return ['call', tn, self.expr(rank, leftmost, consume, d, supers)]
+            if r.random() < 0.4:
+                # the same few literals passed as arguments at several call sites
+                return ['call', tn, ['lit', self.lits[r.randrange(0, 2)]]]
             return ['call', tn, self.expr(rank, False, False, d, supers)]
         raise AssertionError(kind)
 
@@ -513,8 +518,9 @@ def gen_root(rng, named, n_rules=None, hook_p=0.5, ignore=None, features=None, c
     if ignore == 'anon':
         ig_items.append({'k': 'ignore', 'expr': ['re', rng.choice([' +', '[ \\n]+'])]})
     elif ignore == 'named':
-        ig_items.append({'k': 'rule', 'name': 'Sp', 'ignore': True, 'expr': ['re', rng.choice([' +', '[ \\n]+'])]})
-        g.table['Sp'] = {'rank': 1e9, 'nullable': False, 'kind': 'ignore'}
+        pat = rng.choice([' +', '[ \\n]+'])
+        ig_items.append({'k': 'rule', 'name': 'Sp', 'ignore': True, 'expr': ['re', pat]})
+        g.table['Sp'] = {'rank': 1e9, 'nullable': False, 'kind': 'ignore', 'pattern': pat}
         if rng.random() < 0.3:
             ig_items.append({'k': 'rule', 'name': 'Cm', 'ignore': True, 'expr': ['re', '#[^\\n]*']})
             g.table['Cm'] = {'rank': 1e9, 'nullable': False, 'kind': 'ignore'}
@@ -541,7 +547,7 @@ def gen_root(rng, named, n_rules=None, hook_p=0.5, ignore=None, features=None, c
     return spec, g
 
 
-def gen_child(rng, parent_gen, hook_p=0.4, ignore=None, allow_super=True, force=()):
+def gen_child(rng, parent_gen, hook_p=0.4, ignore=None, allow_super=True, force=(), override_ignore_p=0.0):
     """A module spec extending the module described by parent_gen.table.
     Returns (spec, gen) where gen.table is the effective table of the child."""
     g = Gen(rng, parent_gen.features)
@@ -617,6 +623,20 @@ def gen_child(rng, parent_gen, hook_p=0.4, ignore=None, allow_super=True, force=
         nm = 'Sq%d' % g.tagn
         items.append({'k': 'rule', 'name': nm, 'ignore': True, 'expr': ['re', free[0]]})
         g.table[nm] = {'rank': 1e9, 'nullable': False, 'kind': 'ignore', 'pattern': free[0]}
+    # now and then: override a named ignore rule of an ancestor, with or without the modifier
+    # (it stays the rule that the inherited ignore machinery refers to, late-bound)
+    named_ig = sorted(n for n, i in parent_gen.table.items() if i['kind'] == 'ignore')
+    if named_ig and override_ignore_p and rng.random() < override_ignore_p:
+        nm = rng.choice(named_ig)
+        pool = [p for p in ('~+', '_+', ' +', '[ \\n]+') if p != parent_gen.table[nm].get('pattern')]
+        pat = rng.choice(pool)
+        it = {'k': 'rule', 'name': nm, 'expr': ['re', pat], 'ignore_override': True}
+        if rng.random() < 0.5:
+            it['ignore'] = True
+        if rng.random() < 0.6:
+            it['override'] = True
+        items.append(it)
+        g.table[nm] = dict(g.table[nm], pattern=pat)
     spec = {'named': True, 'extends': True, 'items': items}
     return spec, g
 
@@ -699,6 +719,55 @@ def kind_matrix_root(rng, ignore=None):
     return {'named': True, 'extends': None, 'items': items}, g
 
 
+def tour_root(rng, named):
+    """A fixed, feature-rich grammar in the style of the repository's own examples (statements,
+    calls, operator table, templates taking literals and rules as arguments, keyword predicate,
+    classes, separated lists with trailer, ignore).  Every text of its family passes through most
+    of the generated runtime helpers, so that several clients of one run meet in the same code.
+    Returns (spec, gen, fixed texts)."""
+    hook = lambda tag, e: (['right', ['hook', tag], e] if rng.random() < 0.6 else e)
+    items = [
+        {'k': 'rule', 'name': 'Tw', 'params': ['x'], 'expr': ['left', ['right', ['lit', '('], ['ref', 'x']], ['lit', ')']]},
+        {'k': 'rule', 'name': 'Ls', 'params': ['x', 's'], 'expr': ['sep', ['ref', 'x'], ['ref', 's']]},
+        {'k': 'rule', 'name': 'Kw', 'params': ['w'], 'expr': ['where', ['ref', 'Name'], 'lambda v: v == w']},
+        {'k': 'rule', 'name': 'start', 'expr': ['sept', ['ref', 'Stmt'], ['lit', ';']]},
+        {'k': 'rule', 'name': 'Stmt', 'expr': hook('h1', ['alt', ['ref', 'Assign'], ['ref', 'Call'], ['ref', 'Ex']])},
+        {'k': 'class', 'name': 'Call', 'fields': [
+            {'name': 'name', 'expr': ['ref', 'Name'], 'mod': ''},
+            {'name': 'args', 'expr': ['call', 'Tw', ['call', 'Ls', ['ref', 'Ex'], ['lit', ',']]], 'mod': ''}]},
+        {'k': 'class', 'name': 'Assign', 'fields': [
+            {'name': 'kw', 'expr': ['call', 'Kw', ['lit', 'let']], 'mod': 'pass'},
+            {'name': 'target', 'expr': ['left', ['ref', 'Name'], ['lit', '=']], 'mod': ''},
+            {'name': 'value', 'expr': ['ref', 'Ex'], 'mod': ''}]},
+        {'k': 'rule', 'name': 'Ex', 'expr': ['optable', ['ref', 'Atom'], [
+            ['mixfix', [['left', ['right', ['lit', '('], ['ref', 'Ex']], ['lit', ')']]]],
+            ['prefix', [['lit', '-']]], ['left', [['lit', '*']]], ['left', [['lit', '+']]]]]},
+        {'k': 'rule', 'name': 'Atom', 'expr': hook('h2', ['alt', ['hookv', 'h3', ['ref', 'Num']], ['ref', 'Call'], ['ref', 'Name'], ['ref', 'StrL']])},
+        {'k': 'rule', 'name': 'Num', 'expr': ['apply', ['re', '[0-9]+'], 'int']},
+        {'k': 'rule', 'name': 'Name', 'expr': hook('h4', ['re', '[a-z]+'])},
+        {'k': 'rule', 'name': 'StrL', 'expr': ['re', '"[^"]*"']},
+    ]
+    ig = rng.choice(['anon', 'named', 'anon-nl'])
+    if ig == 'named':
+        items.append({'k': 'rule', 'name': 'Sp', 'ignore': True, 'expr': ['re', '[ \\n]+']})
+    else:
+        items.append({'k': 'ignore', 'expr': ['re', ' +' if ig == 'anon' else '[ \\n]+']})
+    g = Gen(rng, features=['classes', 'sep', 'apply', 'where', 'template', 'optable', 'regex', 'lookahead', 'longest'])
+    g.lits = ['(', ')', ',', ';', '+', '=']
+    g.res = ['[a-z]+', '[0-9]+']
+    order = ['start', 'Stmt', 'Assign', 'Call', 'Ex', 'Atom', 'Num', 'Name', 'StrL']
+    for n in ('Tw', 'Ls', 'Kw'):
+        g.table[n] = {'rank': -1.0, 'nullable': n == 'Ls', 'kind': 'template'}
+    kinds = {it['name']: it['k'] for it in items if it['k'] in ('rule', 'class')}
+    for i, n in enumerate(order):
+        g.table[n] = {'rank': float(i), 'nullable': n == 'start', 'kind': kinds[n]}
+    if ig == 'named':
+        g.table['Sp'] = {'rank': 1e9, 'nullable': False, 'kind': 'ignore', 'pattern': '[ \\n]+'}
+    texts = ['let a = 1 + 2; f(a, b); -a * (b + 1)', 'f(1, g(2, "x")); let b = f()', 'a + b * c;', 'let x = (1 + 2',
+             'f(a,, b)', 'let let = 1; f(', '1 +\n 2; g(x)\n + "s"', 'f(a)(b)', '"unterminated', 'let a = -(-1) * 2;;']
+    return {'named': bool(named), 'extends': None, 'items': items}, g, texts
+
+
 def gen_variant(rng, spec_, gen, parent_gen=None, toggle_ignore=True):
     """The same module edited: same rule names, ranks and kinds, one or two bodies regenerated,
     the ignore declaration possibly toggled ("edit the base, re-run everything").
@@ -715,7 +784,8 @@ def gen_variant(rng, spec_, gen, parent_gen=None, toggle_ignore=True):
     supers = ()
     if parent_gen is not None:
         supers = tuple(sorted(n for n, i in parent_gen.table.items() if i['kind'] in ('rule', 'class')))
-    rules = [it for it in s['items'] if it['k'] == 'rule' and not it.get('ignore') and not it.get('params')]
+    rules = [it for it in s['items'] if it['k'] == 'rule' and not it.get('ignore') and not it.get('params')
+             and not it.get('ignore_override')]
     for it in rng.sample(rules, min(len(rules), rng.choice([1, 1, 2]))):
         info = g.table[it['name']]
         consume = not info['nullable']
